@@ -711,6 +711,12 @@ def _validate_seq(pg, sc, plan, rule, seq, cr):
             raise Mismatch('%s reads `%s`, the rule says `%s`' % (what, gen.get('rel', gen['t']), spec['rel']))
         ar = len(spec['args'])
         pending = []
+        # variables that a ?pattern argument of this clause binds: another argument that is (or uses) such a variable is compared
+        # with it after the pattern has been matched
+        pat_bound = set()
+        for a in spec['args']:
+            if 'pat' in a:
+                pat_bound |= set(pat_vars(a['pat']))
         for col, a in enumerate(spec['args']):
             t = gen['cols'].get(col)
             if 'w' in a:
@@ -733,7 +739,7 @@ def _validate_seq(pg, sc, plan, rule, seq, cr):
             if 'v' in a:
                 v = a['v']
                 if t[0] == 'bind':
-                    if v in env and env[v] is not None:
+                    if (v in env and env[v] is not None) or (v in pat_bound):
                         # repeated occurrence desugared into a fresh variable + equality condition: resolved below
                         pending.append(('eqvar', v, t[1], col))
                         bound_ids.add(t[1])
